@@ -1,7 +1,7 @@
 (* C18 — keys, signatures, addresses and number encodings obey their algebra.
    Statements only; every proof is [exact lemma]. *)
 From NG Require Import Common.Tactics Codec.Bigint Codec.BigintProofs.
-From NG Require Import Codec.Base58 Codec.Base58Proofs Codec.Fixed Codec.FixedProofs Codec.UintStr Codec.Merkle Codec.MerkleProofs Codec.Multisig Codec.MultisigProofs.
+From NG Require Import Codec.Base58 Codec.Base58Proofs Codec.Fixed Codec.FixedProofs Codec.UintStr Codec.Merkle Codec.MerkleProofs Codec.Multisig Codec.MultisigProofs Codec.Nep2 Codec.Nep2Proofs.
 Open Scope Z_scope.
 
 (* VM integers decode back to exactly what was encoded *)
@@ -225,3 +225,79 @@ Example C18_multisig_example :
   par_check Nat.eqb [1; 0; 1]%nat [1; 2; 2; 3; 4]%nat [2; 4; 2]%nat = Some false /\
   seq_match Nat.eqb [1; 2; 2; 3; 4]%nat [2; 9; 4]%nat = false.
 Proof. repeat split; vm_compute; reflexivity. Qed.
+
+(* ---------- NEP-2: the envelope, over abstract scrypt / AES / address hash / passphrase normalisers ---------- *)
+(* checksum: Base58Check; addr_hash: key -> 4 bytes; kdf: 64 bytes; enc/dec: inverse on 32-byte blocks under a 32-byte key.
+   n_enc / n_dec: what the encrypting / decrypting side does to the passphrase before the KDF (NEP-2: NFC on both). *)
+Section C18_Nep2.
+Variable checksum : list Z -> list Z.
+Hypothesis checksum_len : forall b, length (checksum b) = 4%nat.
+Hypothesis checksum_ok : forall b, bytes_ok (checksum b).
+Variable addr_hash : list Z -> list Z.
+Hypothesis addr_hash_len : forall k, length (addr_hash k) = 4%nat.
+Hypothesis addr_hash_ok : forall k, bytes_ok (addr_hash k).
+Variable key_valid : list Z -> bool.
+Variable kdf : list Z -> list Z -> list Z.
+Hypothesis kdf_len : forall p s, length (kdf p s) = 64%nat.
+Hypothesis kdf_ok : forall p s, bytes_ok (kdf p s).
+Variable enc dec : list Z -> list Z -> list Z.
+Hypothesis enc_len : forall key x, length key = 32%nat -> length x = 32%nat -> length (enc key x) = 32%nat.
+Hypothesis enc_ok : forall key x, bytes_ok key -> bytes_ok x -> bytes_ok (enc key x).
+Hypothesis dec_enc : forall key x, length key = 32%nat -> length x = 32%nat -> bytes_ok x -> dec key (enc key x) = x.
+
+(* the frame: 01 42 e0 ++ address hash ++ 32-byte body under Base58Check reads back; whatever reads as a frame is one *)
+Theorem C18_nep2_frame_roundtrip : forall ah body,
+  length ah = 4%nat -> bytes_ok ah -> length body = 32%nat -> bytes_ok body ->
+  nep2_unframe checksum (nep2_frame checksum ah body) = Some (ah, body).
+Proof. exact (nep2_unframe_frame checksum checksum_len checksum_ok addr_hash addr_hash_len addr_hash_ok key_valid kdf kdf_len kdf_ok enc dec enc_len enc_ok dec_enc). Qed.
+
+Theorem C18_nep2_frame_sound : forall s ah body, nep2_unframe checksum s = Some (ah, body) ->
+  length ah = 4%nat /\ length body = 32%nat /\ bytes_ok ah /\ bytes_ok body /\ nep2_frame checksum ah body = s.
+Proof. exact (nep2_unframe_sound checksum checksum_len checksum_ok addr_hash addr_hash_len addr_hash_ok key_valid kdf kdf_len kdf_ok enc dec enc_len enc_ok dec_enc). Qed.
+
+(* decrypt (encrypt k p) q = k whenever the two sides bring p and q to the same bytes: with one normaliser on both
+   sides, every q with normalise q = normalise p decrypts (q = p in particular) *)
+Theorem C18_nep2_roundtrip : forall n_enc n_dec k p q, key_wf key_valid k -> n_enc p = n_dec q ->
+  nep2_decrypt checksum addr_hash key_valid kdf dec n_dec (nep2_encrypt checksum addr_hash kdf enc n_enc k p) q = Some k.
+Proof.
+  exact (nep2_roundtrip checksum checksum_len checksum_ok addr_hash addr_hash_len addr_hash_ok key_valid kdf kdf_len kdf_ok enc dec enc_len enc_ok dec_enc).
+Qed.
+
+(* a passphrase whose derived key recovers bytes that are not a key with the envelope's address hash is refused
+   (that a different derived key is noticed holds up to collisions of a 4-byte hash: a premise, not a law) *)
+Theorem C18_nep2_mismatch_refused : forall n_enc n_dec k p q, key_wf key_valid k ->
+  (let k' := nep2_recover dec (kdf (n_dec q) (addr_hash k)) (body_of addr_hash kdf enc n_enc k p) in
+   key_valid k' = false \/ addr_hash k' <> addr_hash k) ->
+  nep2_decrypt checksum addr_hash key_valid kdf dec n_dec (nep2_encrypt checksum addr_hash kdf enc n_enc k p) q = None.
+Proof.
+  exact (nep2_mismatch_refused checksum checksum_len checksum_ok addr_hash addr_hash_len addr_hash_ok key_valid kdf kdf_len kdf_ok enc dec enc_len enc_ok dec_enc).
+Qed.
+
+(* what comes back is a valid key with the address hash of a well-framed envelope *)
+Theorem C18_nep2_decrypt_sound : forall n_dec s q k,
+  nep2_decrypt checksum addr_hash key_valid kdf dec n_dec s q = Some k ->
+  key_valid k = true /\ exists body, nep2_unframe checksum s = Some (addr_hash k, body) /\ length body = 32%nat /\
+                                     nep2_frame checksum (addr_hash k) body = s /\
+                                     k = nep2_recover dec (kdf (n_dec q) (addr_hash k)) body.
+Proof. exact (nep2_decrypt_sound checksum checksum_len checksum_ok addr_hash addr_hash_len addr_hash_ok key_valid kdf kdf_len kdf_ok enc dec enc_len enc_ok dec_enc). Qed.
+End C18_Nep2.
+Print Assumptions C18_nep2_frame_roundtrip.
+Print Assumptions C18_nep2_frame_sound.
+Print Assumptions C18_nep2_roundtrip.
+Print Assumptions C18_nep2_mismatch_refused.
+Print Assumptions C18_nep2_decrypt_sound.
+
+(* the two sides MUST normalise alike: "the key comes back whatever each side does to the passphrase" is false
+   (instance: one side folds the ligature U+FB01 to "fi" as NFKC does, the other does not; the right passphrase is refused) *)
+Theorem C18_nep2_roundtrip_any_normalisers_refuted : ~ nep2_roundtrip_any_normalisers.
+Proof. exact nep2_roundtrip_any_normalisers_refuted. Qed.
+Print Assumptions C18_nep2_roundtrip_any_normalisers_refuted.
+
+(* non-vacuity: an instance of every hypothesis above; agreeing normalisers, disagreeing ones in both directions *)
+Example C18_nep2_example :
+  toy_decrypt no_fold (toy_encrypt no_fold toy_key pass_lig) pass_lig = Some toy_key /\
+  toy_decrypt no_fold (toy_encrypt no_fold toy_key pass_lig) pass_fi = None /\
+  toy_decrypt fold_fi (toy_encrypt no_fold toy_key pass_lig) pass_lig = None /\
+  toy_decrypt no_fold (toy_encrypt fold_fi toy_key pass_lig) pass_lig = None /\
+  toy_decrypt no_fold (toy_encrypt fold_fi toy_key pass_lig) pass_fi = Some toy_key.
+Proof. pose proof nep2_toy_examples as (A & B & C & D & E & _). repeat split; assumption. Qed.
